@@ -1317,9 +1317,19 @@ func genRun(c *ex.Ctx, f *ast.File) {
 		}
 		return out
 	}
-	var closeArm, dfltArm, tail, loopHead []string
+	var closeArm, dfltArm, tail, loopHead, runHead []string
 	shape := false
 	if rf := ex.FindFunc(f, "Parser", "run"); rf != nil && rf.Body != nil && len(rf.Body.List) >= 1 {
+		// what stands in front of the loop (the deferred yield point of the verification build)
+		nh := 0
+		for nh < len(rf.Body.List)-1 {
+			if _, isLoop := rf.Body.List[nh].(*ast.LabeledStmt); isLoop {
+				break
+			}
+			nh++
+		}
+		runHead = conv("run", runTable, rf.Body.List[:nh])
+		rf = &ast.FuncDecl{Name: rf.Name, Recv: rf.Recv, Type: rf.Type, Body: &ast.BlockStmt{List: rf.Body.List[nh:]}}
 		if ls, ok := rf.Body.List[0].(*ast.LabeledStmt); ok && ls.Label.Name == "outer" {
 			if fs, ok := ls.Stmt.(*ast.ForStmt); ok && fs.Init == nil && fs.Cond == nil && fs.Post == nil && len(fs.Body.List) >= 1 {
 				nb := len(fs.Body.List)
@@ -1385,6 +1395,7 @@ func genRun(c *ex.Ctx, f *ast.File) {
 	sb.WriteString("import VaxisModel.Model.ParserRunSk\n\nnamespace VaxisModel.Gen.ParserRun\nopen VaxisModel.Model.ParserRunSk\n\n")
 	b2s := map[bool]string{true: "true", false: "false"}
 	fmt.Fprintf(&sb, "/-- `run` is `outer: for { select { case <-p.close: …; default: … } }` followed by the statements below -/\ndef runShapeOk : Bool := %s\n\n", b2s[shape])
+	fmt.Fprintf(&sb, "/-- the statements of `run` in front of the loop -/\ndef runHead : List RunStmt :=\n  [%s]\n\n", strings.Join(runHead, ",\n   "))
 	fmt.Fprintf(&sb, "/-- the statements of the loop body in front of the `select` -/\ndef runLoopHead : List RunStmt :=\n  [%s]\n\n", strings.Join(loopHead, ",\n   "))
 	fmt.Fprintf(&sb, "/-- body of `case <-p.close:` -/\ndef runClose : List RunStmt :=\n  [%s]\n\n", strings.Join(closeArm, ",\n   "))
 	fmt.Fprintf(&sb, "/-- body of the `default:` arm of the select -/\ndef runDefault : List RunStmt :=\n  [%s]\n\n", strings.Join(dfltArm, ",\n   "))
